@@ -22,4 +22,6 @@ cp /tmp/harvest_$id.diff /verif/seeded/$id/patch.diff
 mkdir -p /verif/seeded/$id/demo; cp -r seeded_demo/* /verif/seeded/$id/demo/ 2>/dev/null
 rm -f /verif/seeded/$id/demo/*.log /verif/seeded/$id/demo/*.so /verif/seeded/$id/demo/*.o
 find /verif/seeded/$id/demo -type f -size +200k -delete
+find /verif/seeded/$id/demo -depth -type d \( -name "work*" -o -name build \) -exec rm -rf {} + 2>/dev/null
+find /verif/seeded/$id/demo -type f \( -name "*.sqfs" -o -name "*.so" -o -name "*.o" \) -delete
 echo "{\"suite\": \"$suite\", \"demo_rc_with_change\": $rc_with, \"demo_rc_without_change\": $rc_without}" > /verif/seeded/$id/verify.json
